@@ -139,6 +139,7 @@ type sideWorld struct {
 	sim      *simTargets
 	cli      *http.Client
 	loadErr  error
+	failNext bool // the next targets update meets a failing reload of Prometheus (last update callback)
 }
 
 // newSideWorld starts a sidecar on store directory dir (created if needed) and loads the store,
@@ -161,7 +162,13 @@ func newSideWorld(dir string, cfgYAML string) *sideWorld {
 		return j
 	}, func() map[uint64]*target.ScrapeStatus { return w.tm.TargetsInfo().Status }, w.cfgm.ConfigInfo, reg, lg)
 	w.cfgm.AddReloadCallbacks(w.sm.ApplyConfig, w.inj.ApplyConfig)
-	w.tm.AddUpdateCallbacks(w.inj.UpdateTargets)
+	w.tm.AddUpdateCallbacks(w.inj.UpdateTargets, func(map[string][]*target.Target) error {
+		if w.failNext {
+			w.failNext = false
+			return fmt.Errorf("scripted: prometheus reload failed")
+		}
+		return nil
+	})
 	w.svc = sidecar.NewService("", "http://127.0.0.1:9090", func() (int64, error) { return w.promHead, nil },
 		w.cfgm, w.tm, reg, lg)
 	if cfgYAML != "" {
